@@ -280,6 +280,22 @@ def run(run_, only_input=None):
             inputs.append(("a: corpus: " + lab, b))
         for p, b in zip(shipped_device_files(), shipped):
             inputs.append(("a: shipped file " + os.path.basename(p), b))
+        # over-long names where a name from a fixed vocabulary is expected (they end up in error messages): 31..33, 64, 1000 and 70000 bytes
+        for n in (31, 32, 33, 64, 1000, 70000):
+            nm = ("x" * n).encode()
+            for lab, b in [
+                ("collision_mode", b'collision_mode = "' + nm + b'"\n[defaults]\nmapping = "a"\nchannel = 1\n[[mapping]]\nname = "a"\n'),
+                ("action", hdr + b'[action_mapping]\nKEY_A = "' + nm + b'"\n'),
+                ("action key", hdr + b'[action_mapping]\n' + nm + b' = "panic"\n'),
+                ("analog type", hdr + b'[[mapping.analog]]\n[mapping.analog.map]\nABS_X = {type = "' + nm + b'"}\n'),
+                ("analog action", hdr + b'[[mapping.analog]]\n[mapping.analog.map]\nABS_X = {type = "action", action = "' + nm + b'", action_negative = "panic"}\n'),
+                ("axis name", hdr + b'[[mapping.analog]]\n[mapping.analog.map]\n' + nm + b' = {type = "cc", cc = 1}\n'),
+                ("key name", hdr + b'[[mapping.keys]]\n[mapping.keys.map]\n' + nm + b' = "c1"\n'),
+                ("note name", hdr + b'[[mapping.keys]]\n[mapping.keys.map]\nKEY_A = "' + nm + b'"\n'),
+                ("default mapping", b'collision_mode = "off"\n[defaults]\nmapping = "' + nm + b'"\nchannel = 1\n[[mapping]]\nname = "a"\n'),
+                ("exit sequence key", b'exit_sequence = ["' + nm + b'"]\n' + hdr),
+            ]:
+                inputs.append(("a: corpus: over-long %s name (%d bytes)" % (lab, n), b))
         # very short files, exhaustively: every file of 0, 1 and 2 bytes (a file caught while it is being written, byte-order marks cut short)
         inputs.append(("a: empty file", b""))
         for x in range(256):
